@@ -407,6 +407,8 @@ def startSection (env : Env) (st : PSt) (attrs : Attrs) : EM PSt := do
   let handler ← getHandler attrs
   let req ← getRequired attrs
   let (anyName, name, attrName) ← getNameInfo env st attrs (some ['*'])
+  -- `addsection`: `assert name not in ("*", "+")` (a key type that turns a fixed name into a wildcard name)
+  if name == some ['*'] || name == some ['+'] then .error (.internal "AssertionError")
   let si : SectInfo := { name := (match anyName with | some a => a | none => name.getD []), attr := attrName.getD [],
                          multi := false, minOccurs := if req then 1 else 0, ty := ty, handler := handler }
   let st' ← addChild st name (.sect si)
